@@ -99,6 +99,66 @@ def mutants_of(src_bytes, fname):
             emit('%s -> pass' % type(n).__name__, n, 'pass', expr=False)
         elif isinstance(n, ast.If) and not n.orelse and len(n.body) == 1 and isinstance(n.body[0], (ast.Raise,)):
             emit('drop guard: if %s: raise' % ast.unparse(n.test)[:50].replace('\n', ' '), n, 'pass', expr=False)
+    if os.environ.get('SWEEP_OPS2'):
+        res = []            # second operator set only
+        SIB = [('sr', 'sw', 'ch'), ('sampling_rate', 'sample_width', 'channels'), ('_sampling_rate', '_sample_width', '_channels')]
+        PAIRS = [('start', 'end'), ('onset', 'offset'), ('min_length', 'max_length'), ('min_dur', 'max_dur'), ('skip', 'max_read'), ('block_dur', 'hop_dur'), ('block_size', 'hop_size'),
+                 ('start_sample', 'stop_sample'), ('start_s', 'stop_s'), ('start_ms', 'stop_ms'), ('_start_frame', '_current_frame'), ('first', 'last')]
+        for n in ast.walk(tree):
+            if isinstance(n, ast.If):
+                emit('negate if-test %s' % ast.unparse(n.test)[:40].replace('\n', ' '), n.test, 'not (%s)' % ast.unparse(n.test))
+                if n.orelse and not (len(n.orelse) == 1 and isinstance(n.orelse[0], ast.If)):
+                    a, _ = span(n.orelse[0])
+                    _, b = span(n.orelse[-1])
+                    res.append(dict(file=fname, line=n.orelse[0].lineno, desc='empty else-branch of if %s' % ast.unparse(n.test)[:40].replace('\n', ' '), src=src_bytes[:a] + b'pass' + src_bytes[b:]))
+            if isinstance(n, ast.Attribute):
+                for fam in SIB:
+                    if n.attr in fam:
+                        for alt in fam:
+                            if alt != n.attr:
+                                emit('attribute %s->%s' % (n.attr, alt), n, ast.unparse(n.value) + '.' + alt)
+            if isinstance(n, ast.Name) and isinstance(n.ctx, ast.Load):
+                for fam in SIB:
+                    if n.id in fam:
+                        for alt in fam:
+                            if alt != n.id:
+                                emit('name %s->%s' % (n.id, alt), n, alt)
+                for a_, b_ in PAIRS:
+                    if n.id in (a_, b_):
+                        emit('name %s->%s' % (n.id, b_ if n.id == a_ else a_), n, b_ if n.id == a_ else a_)
+            if isinstance(n, ast.Attribute) and isinstance(n.ctx, ast.Load):
+                for a_, b_ in PAIRS:
+                    if n.attr in (a_, b_):
+                        emit('attribute %s->%s' % (n.attr, b_ if n.attr == a_ else a_), n, ast.unparse(n.value) + '.' + (b_ if n.attr == a_ else a_))
+            if isinstance(n, ast.Subscript) and isinstance(n.slice, ast.Slice) and isinstance(n.ctx, ast.Load):
+                sl = n.slice
+                if sl.lower is not None:
+                    emit('slice drops lower bound', n, '%s[:%s]' % (ast.unparse(n.value), ast.unparse(sl.upper) if sl.upper is not None else ''))
+                if sl.upper is not None:
+                    emit('slice drops upper bound', n, '%s[%s:]' % (ast.unparse(n.value), ast.unparse(sl.lower) if sl.lower is not None else ''))
+            if isinstance(n, ast.Compare) and len(n.ops) == 1 and isinstance(n.comparators[0], ast.Constant) and n.comparators[0].value is None:
+                if isinstance(n.ops[0], ast.Is):
+                    emit('is None -> falsy', n, 'not %s' % ast.unparse(n.left))
+                elif isinstance(n.ops[0], ast.IsNot):
+                    emit('is not None -> truthy', n, 'bool(%s)' % ast.unparse(n.left))
+            for fld in ('body', 'orelse', 'finalbody'):
+                blk = getattr(n, fld, None)
+                if isinstance(blk, list) and len(blk) >= 2 and all(isinstance(x, ast.stmt) for x in blk):
+                    for i_ in range(len(blk) - 1):
+                        x, y = blk[i_], blk[i_ + 1]
+                        if isinstance(x, (ast.Assign, ast.AugAssign, ast.Expr)) and isinstance(y, (ast.Assign, ast.AugAssign, ast.Expr)) and id(x) not in in_docstring and x.col_offset == y.col_offset:
+                            ax, bx = span(x)
+                            ay, by = span(y)
+                            res.append(dict(file=fname, line=x.lineno, desc='swap statements %s <-> %s' % (ast.unparse(x)[:30].replace('\n', ' '), ast.unparse(y)[:30].replace('\n', ' ')),
+                                            src=src_bytes[:ax] + src_bytes[ay:by] + src_bytes[bx:ay] + src_bytes[ax:bx] + src_bytes[by:]))
+    excl = os.environ.get('SWEEP_EXCLUDE')
+    if excl:
+        import re as _re
+        rx = _re.compile(excl)
+        spans = [(x.lineno, x.end_lineno, x.name) for x in ast.walk(tree) if isinstance(x, (ast.FunctionDef, ast.ClassDef))]
+        def excluded(line):
+            return any(a <= line <= b and rx.search(nm) for a, b, nm in spans)
+        res = [m for m in res if not excluded(m['line'])]
     ok = []
     for m in res:
         try:
